@@ -21,7 +21,7 @@ Definition old_code : code := {|
   k_ns_arg := k_ns_arg the_code; k_ns_decide := k_ns_decide the_code; k_sup_tpl := k_sup_tpl the_code;
   k_guard_type := k_guard_type the_code; k_guard_header := k_guard_header the_code; k_guard_copy := k_guard_copy the_code;
   k_types_all_when_ns := k_types_all_when_ns the_code;
-  k_fix_lookup := false; k_fix_nonj2 := false; k_fix_suptpl := false; k_path_pure := k_path_pure the_code; k_ns_check := k_ns_check the_code |}.
+  k_fix_lookup := false; k_fix_nonj2 := false; k_fix_suptpl := false; k_path_pure := k_path_pure the_code; k_ns_check := k_ns_check the_code; k_fix_constref := false |}.
 
 Definition old_listed (c : cfg) (i : inputs) : list (list (list N)) := snd (fst (run old_code (li_of c) i fs_empty)).
 
